@@ -11,23 +11,25 @@ THEOREMS = ['C16_partition_overlap', 'C16_weights_nonneg', 'C16_rows_sum_to_one'
             'C16_range_preserved', 'C16_vertical_rows', 'C16_vertical_integral_conserved',
             'C16_hybrid_integral_conserved', 'C16_latitude_overlap_is_sin_overlap', 'C16_latitude_rows',
             'C16_latitude_integral_conserved', 'C16_latitude_integral_conserved_R',
-            'C16_longitude_rows_partial', 'C16_horizontal_integral_conserved_partial',
+            'C16_longitude_rows_given_total', 'C16_horizontal_integral_conserved_given_partition',
             'C16_nan_semantics_strict', 'C16_nan_semantics_skipna', 'C16_periodic_overlap_images',
-            'C16_periodic_overlap_full_circle_R', 'C16_longitude_coarse_conserves',
-            'C16_hyps_satisfiable']
+            'C16_periodic_overlap_full_circle_R', 'C16_longitude_partition', 'C16_longitude_points_cyclic',
+            'C16_longitude_rows', 'C16_horizontal_integral_conserved', 'C16_cyclic_points_satisfiable',
+            'C16_longitude_coarse_conserves', 'C16_hyps_satisfiable']
 LEVEL = 'proof'
-LEVEL_TEXT = ('machine-checked theorems (Coq) for every ordered field, every number of source/target cells and every '
-              'sorted boundary list: overlap partition identity, non-negative weights, unit row sums, constants, range, '
-              'integral conservation for the vertical (covered range), hybrid->sigma and latitude (sin-measure, also '
-              'instantiated at R with the real sin) regridders, NaN semantics of ConservativeRegridder for both skipna '
-              'settings; the Gallina model is executed (extraction) against the implementation on generated grid pairs')
-LEVEL_NOTE = ('longitude: non-negativity, row sums, constants and range are proved for the periodic overlap as coded (three-image '
-              'sum after moving the second interval as a whole); the periodic partition identity (hence conservation of the '
-              'longitude / tensor-product integral) is NOT proved in general: it enters C16_horizontal_integral_conserved_partial '
-              'as an explicit hypothesis (proved: its pointwise building blocks over R and the concrete 3x3 and 4x6 instances) and '
-              'is decided by oracle exploration on generated grid pairs (>= 3 longitudes, incl. wide cells). sin enters as monotone '
-              'tables (table obligations checked per case). Theorems are about the model Model/Regrid.v, tied to the code by '
-              'differential correspondence.')
+LEVEL_TEXT = ('machine-checked theorems (Coq) for every number of source/target cells and every sorted boundary list: overlap '
+              'partition identity, non-negative weights, unit row sums, constants, range, integral conservation for the vertical '
+              '(covered range), hybrid->sigma and latitude (sin-measure) regridders and the NaN semantics of ConservativeRegridder '
+              'for both skipna settings over every ordered field; over the reals additionally the periodic longitude partition '
+              'identity for the code as written (phase alignment, periodic bounds, three-image overlap), hence unconditional '
+              'longitude row properties and conservation of the area-weighted integral of the horizontal regridder with the '
+              'real sin; the Gallina model is executed (extraction) against the implementation on generated grid pairs')
+LEVEL_NOTE = ('longitude partition/conservation theorems are over R (not every ordered field) and assume what the code needs: '
+              'strictly increasing longitudes whose cyclic gaps are all < period/2 (so >= 3 nodes; 2-node grids are degenerate '
+              'in the code); these hypotheses are re-checked per case as table obligations H_lon_gaps / H_lon_cyclic. sin enters '
+              'the field-generic latitude theorems as monotone tables (table obligations), the R versions use the real sin. '
+              'Theorems are about the model Model/Regrid.v, tied to the code by differential correspondence; float rounding, '
+              'batch dimensions and einsum precision flags are not modelled.')
 TECHNIQUE = 'interactive proof (Coq) + extracted-model differential testing + property oracles'
 
 PERIOD = 2 * np.pi
@@ -262,10 +264,25 @@ def _lon_cells(hi, x):
     return p, np.asarray(hi._periodic_lower_bounds(p, PERIOD)), np.asarray(hi._periodic_upper_bounds(p, PERIOD))
 
 
+def _lon_obligations(ctx, x):
+    """hypotheses of C16_longitude_points_cyclic / C16_longitude_partition on the implementation's points"""
+    x = np.asarray(x, dtype=np.float64); n = x.size
+    gaps = np.concatenate([np.diff(x), [x[0] + PERIOD - x[-1]]])
+    ctx.table_obligation('H_lon_gaps: longitudes strictly increasing with all cyclic gaps in (0, period/2)',
+                         bool(np.all(gaps > 0) and np.all(gaps < PERIOD / 2)), {'gaps': [float(gaps.min()), float(gaps.max())]})
+    p = x % PERIOD
+    d = np.roll(p, -1) - p
+    g = np.where(d > 0, d, d + PERIOD)
+    ctx.table_obligation('H_lon_cyclic: reduced points in [0,period) advance cyclically by steps in (0, period/2), once around',
+                         bool(np.all(p >= 0) and np.all(p < PERIOD) and np.all(g > 0) and np.all(g < PERIOD / 2)
+                              and abs(g.sum() - PERIOD) < 1e-9), {'sum': float(g.sum())})
+
+
 def r_lon(ctx, a):
     jnp, hi, vi, sh, sc = J()
     sx = np.asarray(a['sx'], dtype=np.float64); tx = np.asarray(a['tx'], dtype=np.float64)
     m, n = sx.size, tx.size
+    _lon_obligations(ctx, sx); _lon_obligations(ctx, tx)
     kt, ks = kfloor(tx), kfloor(sx)
     for nm, x, k in (('source', sx, ks), ('target', tx, kt)):
         p, lo, up = _lon_cells(hi, x)
@@ -424,6 +441,7 @@ def r_regrid2d(ctx, a):
     _weight_oracles(ctx, '2d longitude', wlon); _weight_oracles(ctx, '2d latitude', wlat)
     slon = np.asarray(src.longitudes); tlon = np.asarray(tgt.longitudes)
     slat = np.asarray(src.latitudes); tlat = np.asarray(tgt.latitudes)
+    _lon_obligations(ctx, slon); _lon_obligations(ctx, tlon)
     # implementation-side bookkeeping used by the oracles
     good = np.where(nanmask, 0.0, 1.0)
     frac = np.einsum('ab,cd,bd->ac', wlon, wlat, good)
